@@ -149,7 +149,7 @@ class Extend(Part):
         stamps = [float(x) for x in ss.dae.ts.t]
         pts = [s for s in stamps[1:self.K + 1]]
         for e in ev:
-            pts += [e - EPS, e, e + EPS]
+            pts += [e - EPS, e, e + EPS, e - 1e-5, e - 1e-6 * max(1.0, e), e + 1e-6 * max(1.0, e)]
         pts += [0.123, 0.3777]
         return sorted(set(round(p, 12) for p in pts if 0 < p < TF))
 
